@@ -2,127 +2,182 @@ package main
 
 import (
 	"go/ast"
+	"go/parser"
 	"go/token"
+	"os"
+	"path/filepath"
 	"sort"
+	"strings"
 )
 
-// genEnforcement (C19): what the strict SNI-Host check can depend on.
+// genEnforcement (C19): what the strict SNI-Host check can depend on — as SETS, independent of how the code is
+// cut into helpers and of local names.
 //
-//   - server.go (*Server).enforcementHandler: every selector expression rooted at the receiver or a
-//     parameter (`r.Host`, `r.TLS.ServerName`, `s.StrictSNIHost`, …; a method call such as `r.Context()`
-//     shows up as `r.Context`), the ones that are assigned to, every free identifier of the body (package
-//     names, package-level functions / variables / types — anything that is not a parameter, the receiver,
-//     a local variable or a field name), and the number of statements of the body. A per-connection memo
-//     (context value, package-level table, new field) changes one of these lists.
-//   - app.go: the keys of the `context.WithValue` calls inside the `ConnContext:` function literal of the
-//     http.Server that (*App).start builds, and whether a `BaseContext:` is set — the only per-connection
-//     values a request's context carries.
+// Starting from server.go (*Server).enforcementHandler, same-package static calls are followed transitively
+// (plain calls of package-level functions; method calls on the function's own receiver). In every function so
+// reached, identifiers are classified by their DECLARED type in the signature: `*http.Request` parameters,
+// the `*Server` receiver / parameters. Collected:
+//   - enforcementRequestReads: selector chains read on a request (`Request.Host`, `Request.TLS.ServerName`;
+//     a call `r.Context()` appears as `Request.Context`, `r.Context().Value` as `Request.Context.Value`)
+//   - enforcementServerReads: fields read on the server (followed helper methods are not listed)
+//   - enforcementContextReads: first argument of every `.Value(…)` call (context reads)
+//   - enforcementPackageVars: every package-level `var` of package caddyhttp mentioned
+//   - enforcementWrites: every assignment / inc-dec whose target is a selector on a request or server, or a
+//     package-level variable
+//
+// AST-level (signature types, no go/types): a request passed on under another static type, or aliased to a
+// local (`req := r`), is not tracked.
 func genEnforcement() string {
 	uniq := func(m map[string]bool) []string {
-		var out []string
+		out := []string{}
 		for k := range m {
 			out = append(out, k)
 		}
 		sort.Strings(out)
 		return out
 	}
-	_, sf := parseFile("modules/caddyhttp/server.go")
-	sels, writes, free := map[string]bool{}, map[string]bool{}, map[string]bool{}
-	nStmts := 0
-	if fd := findFunc(sf, "Server", "enforcementHandler"); fd != nil && fd.Body != nil {
-		nStmts = len(fd.Body.List)
-		roots := map[string]bool{}
-		local := map[string]bool{}
-		if fd.Recv != nil {
-			for _, fl := range fd.Recv.List {
-				for _, n := range fl.Names {
-					roots[n.Name] = true
+	fset := token.NewFileSet()
+	pkgs, _ := parser.ParseDir(fset, filepath.Join(repo, "modules/caddyhttp"), func(fi os.FileInfo) bool {
+		return !strings.HasSuffix(fi.Name(), "_test.go")
+	}, 0)
+	funcs := map[string]*ast.FuncDecl{} // "Recv.name" or ".name"
+	pkgVars := map[string]bool{}
+	recvName := func(fd *ast.FuncDecl) string {
+		if fd.Recv == nil || len(fd.Recv.List) == 0 {
+			return ""
+		}
+		return strings.TrimPrefix(exprText(fd.Recv.List[0].Type), "*")
+	}
+	if pkg := pkgs["caddyhttp"]; pkg != nil {
+		for _, f := range pkg.Files {
+			for _, d := range f.Decls {
+				switch t := d.(type) {
+				case *ast.FuncDecl:
+					funcs[recvName(t)+"."+t.Name.Name] = t
+				case *ast.GenDecl:
+					if t.Tok == token.VAR {
+						for _, sp := range t.Specs {
+							for _, n := range sp.(*ast.ValueSpec).Names {
+								if n.Name != "_" {
+									pkgVars[n.Name] = true
+								}
+							}
+						}
+					}
 				}
 			}
 		}
-		for _, fl := range fd.Type.Params.List {
-			for _, n := range fl.Names {
-				roots[n.Name] = true
+	}
+	reqReads, srvReads, ctxReads, pvars, writes := map[string]bool{}, map[string]bool{}, map[string]bool{}, map[string]bool{}, map[string]bool{}
+	visited := map[string]bool{}
+	var visit func(key string)
+	visit = func(key string) {
+		fd := funcs[key]
+		if fd == nil || fd.Body == nil || visited[key] {
+			return
+		}
+		visited[key] = true
+		kind := map[string]string{} // ident -> "Request" | "Server"
+		self := ""
+		classify := func(fl *ast.FieldList, isRecv bool) {
+			if fl == nil {
+				return
+			}
+			for _, f := range fl.List {
+				ty := strings.TrimPrefix(exprText(f.Type), "*")
+				for _, n := range f.Names {
+					switch ty {
+					case "http.Request":
+						kind[n.Name] = "Request"
+					case "Server":
+						kind[n.Name] = "Server"
+					}
+					if isRecv {
+						self = n.Name
+					}
+				}
 			}
 		}
-		var rootOf func(e ast.Expr) string
-		rootOf = func(e ast.Expr) string {
+		classify(fd.Recv, true)
+		classify(fd.Type.Params, false)
+		// chain: "Kind.A.B" for a selector chain rooted at a classified identifier, "" otherwise
+		var chain func(e ast.Expr) string
+		chain = func(e ast.Expr) string {
 			switch t := e.(type) {
 			case *ast.Ident:
-				return t.Name
+				return kind[t.Name]
 			case *ast.SelectorExpr:
-				return rootOf(t.X)
+				if c := chain(t.X); c != "" {
+					return c + "." + t.Sel.Name
+				}
 			case *ast.StarExpr:
-				return rootOf(t.X)
+				return chain(t.X)
 			case *ast.ParenExpr:
-				return rootOf(t.X)
+				return chain(t.X)
 			case *ast.CallExpr:
-				return rootOf(t.Fun)
+				return chain(t.Fun)
 			case *ast.IndexExpr:
-				return rootOf(t.X)
+				return chain(t.X)
 			case *ast.TypeAssertExpr:
-				return rootOf(t.X)
+				return chain(t.X)
 			}
 			return ""
 		}
-		// local declarations first
+		lhs := map[ast.Expr]bool{}
+		followed := map[*ast.SelectorExpr]bool{}
 		ast.Inspect(fd.Body, func(x ast.Node) bool {
 			switch t := x.(type) {
-			case *ast.AssignStmt:
-				if t.Tok == token.DEFINE {
-					for _, l := range t.Lhs {
-						if id, ok := l.(*ast.Ident); ok {
-							local[id.Name] = true
-						}
-					}
-				}
-			case *ast.ValueSpec:
-				for _, n := range t.Names {
-					local[n.Name] = true
-				}
-			case *ast.RangeStmt:
-				if t.Tok == token.DEFINE {
-					for _, e := range []ast.Expr{t.Key, t.Value} {
-						if id, ok := e.(*ast.Ident); ok {
-							local[id.Name] = true
-						}
-					}
-				}
-			}
-			return true
-		})
-		selNames := map[*ast.Ident]bool{}
-		ast.Inspect(fd.Body, func(x ast.Node) bool {
-			switch t := x.(type) {
-			case *ast.SelectorExpr:
-				selNames[t.Sel] = true
-				if roots[rootOf(t)] {
-					sels[exprText(t)] = true
-				}
-			case *ast.KeyValueExpr:
-				if id, ok := t.Key.(*ast.Ident); ok {
-					selNames[id] = true
-				}
 			case *ast.AssignStmt:
 				for _, l := range t.Lhs {
-					if _, ok := l.(*ast.SelectorExpr); ok && roots[rootOf(l)] {
-						writes[exprText(l)] = true
+					if c := chain(l); c != "" && strings.Contains(c, ".") {
+						writes[c] = true
+						lhs[l] = true
+					} else if id, ok := l.(*ast.Ident); ok && pkgVars[id.Name] && t.Tok != token.DEFINE {
+						writes[id.Name] = true
 					}
 				}
 			case *ast.IncDecStmt:
-				if roots[rootOf(t.X)] {
-					writes[exprText(t.X)] = true
+				if c := chain(t.X); c != "" {
+					writes[c] = true
+				}
+			case *ast.CallExpr:
+				switch fn := t.Fun.(type) {
+				case *ast.Ident:
+					visit("." + fn.Name)
+				case *ast.SelectorExpr:
+					if id, ok := fn.X.(*ast.Ident); ok && id.Name == self && self != "" {
+						if _, ok := funcs[recvName(fd)+"."+fn.Sel.Name]; ok {
+							followed[fn] = true
+							visit(recvName(fd) + "." + fn.Sel.Name)
+						}
+					}
+					if fn.Sel.Name == "Value" && len(t.Args) == 1 {
+						ctxReads[exprText(t.Args[0])] = true
+					}
 				}
 			}
 			return true
 		})
 		ast.Inspect(fd.Body, func(x ast.Node) bool {
-			if id, ok := x.(*ast.Ident); ok && !selNames[id] && !roots[id.Name] && !local[id.Name] && id.Name != "_" {
-				free[id.Name] = true
+			switch t := x.(type) {
+			case *ast.SelectorExpr:
+				if lhs[t] || followed[t] {
+					return true
+				}
+				if c := chain(t); strings.HasPrefix(c, "Request.") {
+					reqReads[c] = true
+				} else if strings.HasPrefix(c, "Server.") {
+					srvReads[c] = true
+				}
+			case *ast.Ident:
+				if pkgVars[t.Name] && kind[t.Name] == "" {
+					pvars[t.Name] = true
+				}
 			}
 			return true
 		})
 	}
+	visit("Server.enforcementHandler")
 
 	_, af := parseFile("modules/caddyhttp/app.go")
 	keys := map[string]bool{}
@@ -157,14 +212,18 @@ func genEnforcement() string {
 	var sb []byte
 	w := func(s string) { sb = append(sb, s...) }
 	w(header)
-	w("/-- modules/caddyhttp/server.go (*Server).enforcementHandler: every selector expression of its body rooted at the\n    receiver or a parameter (a method call `r.Context()` would appear as `r.Context`), sorted -/\n")
-	w("def enforcementSelectors : List String := " + leanStrList(uniq(sels)) + "\n\n")
-	w("/-- … the ones it assigns to -/\n")
+	w("/-- modules/caddyhttp: (*Server).enforcementHandler and every same-package function it statically calls (transitively):\n    selector chains READ on a `*http.Request` (a call `r.Context()` would appear as `Request.Context`), sorted -/\n")
+	w("def enforcementRequestReads : List String := " + leanStrList(uniq(reqReads)) + "\n\n")
+	w("/-- … fields read on the `*Server` -/\n")
+	w("def enforcementServerReads : List String := " + leanStrList(uniq(srvReads)) + "\n\n")
+	w("/-- … keys of context reads (`.Value(k)` calls) -/\n")
+	w("def enforcementContextReads : List String := " + leanStrList(uniq(ctxReads)) + "\n\n")
+	w("/-- … package-level variables of package caddyhttp mentioned -/\n")
+	w("def enforcementPackageVars : List String := " + leanStrList(uniq(pvars)) + "\n\n")
+	w("/-- … assignment targets that are fields of a request / server or package-level variables -/\n")
 	w("def enforcementWrites : List String := " + leanStrList(uniq(writes)) + "\n\n")
-	w("/-- … every free identifier of its body (packages, package-level functions / variables / types, predeclared names) -/\n")
-	w("def enforcementFreeIdents : List String := " + leanStrList(uniq(free)) + "\n\n")
-	w("/-- … and the number of top-level statements of its body -/\n")
-	w("def enforcementTopStmts : Nat := " + itoa(nStmts) + "\n\n")
+	w("/-- … and the functions visited -/\n")
+	w("def enforcementFunctions : List String := " + leanStrList(uniq(visited)) + "\n\n")
 	w("/-- modules/caddyhttp/app.go: the keys of the context.WithValue calls inside the `ConnContext:` function literals\n    (the per-connection values every request's context carries), how many such literals there are, and whether\n    a `BaseContext:` is set anywhere in the file -/\n")
 	w("def httpConnContextKeys : List String := " + leanStrList(uniq(keys)) + "\n")
 	w("def httpConnContextLiterals : Nat := " + itoa(nConnContext) + "\n")
